@@ -332,6 +332,7 @@ def decl_catalogue(tier, rng, for_prop):
         D.append(d)
     # literal bounds and closure spellings
     D.append(StrDecl(["trim"], ["min", "max"], literal={"min": 1, "max": 2}))
+    D.append(StrDecl(["trim"], ["not_empty", "min", "max"], literal={"min": 2, "max": 3}))
     D.append(StrDecl(["with", "trim"], ["pred", "max"], with_form="closure", pred_form="closure"))
     D.append(StrDecl(["trim", "with"], ["pred"], with_form="closure_typed", pred_form="closure_typed"))
     return D
